@@ -33,9 +33,7 @@ ConfBid(nd) ==
     [] nd.a = "BidV2" -> Res(nd, BidV2(p, c, g.u, g.id, g.amt, g.denom))
     [] OTHER -> TRUE
 ConfHookV1(nd) == nd.a = "HookV1" => ~nd.res.panic /\ Same(HookV1(Pre(nd), Cfg(nd)), Post(nd))
-(* the debt close may book either amount: the gov amount (code today) or the stable amount (intended) *)
-ConfBlock(nd) == nd.a = "Block" => ~nd.res.panic /\ (\/ Same(Block(Pre(nd), Cfg(nd), nd.args.dt, "gov"), Post(nd))
-                                                     \/ Same(Block(Pre(nd), Cfg(nd), nd.args.dt, "stable"), Post(nd)))
+ConfBlock(nd) == nd.a = "Block" => ~nd.res.panic /\ Same(Block(Pre(nd), Cfg(nd), nd.args.dt), Post(nd))
 ConfEnv(nd) ==
   LET p == Pre(nd) c == Cfg(nd) IN
   CASE nd.a = "Advance" -> Same([p EXCEPT !.t = @ + nd.args.dt], Post(nd))
